@@ -219,6 +219,7 @@ def run(tier):
             chk.saw(unit='SRC/%sgstrs.c' % p, func='SRC/%sgstrs.c:%sgstrs' % (p, p))
         from ..rules.effects import PathEffects as _PE
         chk.clause('C01.preorder', 'R3 oracle of sp_preorder')
+        kernels.paired_cursor_rule(chk, 'C01.cursor', prog, [q + 'gstrs' for q in 'sdcz'], cfgname, floor=4)
         kernels.leading_dimension_agreement(chk, 'C01.ld', prog, [q + 'gstrs' for q in 'sdcz'], cfgname, floor=4)
         preorder.run(chk, 'C01.preorder', prog, _PE(prog), cfgname)
         kernels.run_basic(chk, 'C01.kern', prog, cfgname, ('solve', 'bmod'), floor_scratch=4 if cfgname != 'cblas' else 20)
